@@ -45,6 +45,10 @@ def regenerate_gen():
         rc3, out3, err3 = sh([sys.executable, os.path.join(VERIF, 'tools', 'seqlockorders.py'), os.path.join(COQ, 'gen')], timeout=60)
         st_ok = st_ok and rc3 == 0
         msg += '\n' + out3.strip() + err3.strip()
+    if os.path.exists(os.path.join(VERIF, 'tools', 'vyukovorders.py')):
+        rc4, out4, err4 = sh([sys.executable, os.path.join(VERIF, 'tools', 'vyukovorders.py'), os.path.join(COQ, 'gen')], timeout=60)
+        st_ok = st_ok and rc4 == 0
+        msg += '\n' + out4.strip() + err4.strip()
     return rc == 0 and st_ok, msg + err.strip()
 
 def coq_files():
